@@ -16,9 +16,19 @@ def finding_key(req, obs, detail):
     if m:
         key = m.group(1)
         # `a < a > (X)`: any right operand that is printed in parentheses gives the same misreading
+        # (also when the operand only *starts* with `(`, e.g. `a < a > (++a)++`, where the call ends up below a postfix node)
         pre = "tree-differs[bin:GreaterThan->call] ret (bin GreaterThan (bin LessThan (id a) (id a)) "
-        if key.startswith(pre):
+        if re.match(r"tree-differs\[bin:GreaterThan->[^\]]*\] ret \(bin GreaterThan \(bin LessThan \(id a\) \(id a\)\) ", key):
             key = pre + "(bin BitwiseAnd (id a) (id a)))"
+        # the same misreading in any position (`f(a < b, c > (d))` reads as `f(a<b, c>(d))`): the re-read tree has
+        # template arguments although the original has none at all
+        eot = re.compile(r"\((?:E|B|T) \(")
+        if key.startswith("tree-differs") and " ==> " in (obs or "") and not eot.search(req) and eot.search(obs.split(" ==> ", 1)[1]):
+            key = pre + "(bin BitwiseAnd (id a) (id a)))"
+        # source stream: a declarator whose array size is a parenthesised comma expression (one class, whatever
+        # statement the 1-minimal program wraps around it)
+        if key.startswith("src rejected-by-parser ") and re.search(r"(?:\ba|>|,) a \[ \( \w+ , \w+ \) \]", key):
+            key = "src rejected-by-parser a a ( ) { a a [ ( a , a ) ] ; }"
         return key
     m = re.match(r"FAIL:panic ([^:]+):\d+: (.*)$", detail or "")
     if m:
